@@ -133,7 +133,7 @@ func originVerdictsStar(wrap func(http.Handler) http.Handler, o string, star boo
 	p := Do(wrap, Preflight(o, "GET"), nil)
 	acao = p.Hdr[hACAO]
 	switch {
-	case p.Status == 403 && len(acao) == 0:
+	case len(acao) == 0: // refused, whatever the status (the documentation does not pin one)
 	case p.Status >= 200 && p.Status <= 299 && len(acao) == 1 && (acao[0] == o || star && acao[0] == "*"):
 		pfOK = true
 	default:
